@@ -1711,9 +1711,10 @@ lyd_diff_merge_create(struct lyd_node **diff_match, struct lyd_node **diff, enum
                 sleaf = (struct lysc_node_leaf *)src_diff->schema;
             }
 
-            if (sleaf && sleaf->dflt && !sleaf->dflt->realtype->plugin->compare(ctx, sleaf->dflt,
-                    &((struct lyd_node_term *)src_diff)->value)) {
-                /* we deleted it, so a default value was in-use, and it matches the created value -> operation NONE */
+            if (sleaf && sleaf->dflt && (*diff_match)->schema && !sleaf->dflt->realtype->plugin->compare(ctx, sleaf->dflt,
+                    &((struct lyd_node_term *)src_diff)->value) && !sleaf->dflt->realtype->plugin->compare(ctx, sleaf->dflt,
+                    &((struct lyd_node_term *)*diff_match)->value)) {
+                /* we deleted the default value and it matches the created value -> operation NONE */
                 LY_CHECK_RET(lyd_diff_change_op(*diff_match, LYD_DIFF_OP_NONE));
             } else if (!lyd_compare_single(*diff_match, src_diff, 0)) {
                 /* deleted + created -> operation NONE */
